@@ -41,7 +41,9 @@
 #ifndef DB
 #define DB 0
 #endif
+#ifndef MAXR
 #define MAXR (N / 3 + 1)
+#endif
 
 unsigned char in[N + 1];
 unsigned char qstatus;          /* qmail-queue outcome: 0 exit 0, 1 permanent, 2 temporary */
@@ -71,9 +73,8 @@ struct ref {
   unsigned int mode, boff, bend, dlen;         /* raw body in[boff..bend), decoded length */
   unsigned int soff, slen, nr, roff[MAXR], rlen[MAXR];
   /* policy */
-  int sender_bad, too_big, rh_trouble;
+  int sender_bad, too_big;
   int ok[MAXR]; unsigned int nok, okidx[MAXR];
-  unsigned int nelig, eligidx[MAXR];           /* recipients rcpthosts() must be asked about */
 };
 static struct ref R;
 
@@ -155,18 +156,12 @@ static void ref_policy(void)
   }
   R.too_big = (DB != 0 && R.dlen > DB);
   R.sender_bad = R.slen >= 1000 || has_nul(R.soff, R.slen);
+  /* acceptable: fits, no NUL, and relay client or listed in rcpthosts.  rh[i] is the
+   * verdict rcpthosts() gives for recipient i if it is asked (whether it is also asked
+   * about a recipient that is refused anyway is the daemon's business) */
   for (i = 0; i < MAXR; ++i) {
-    int elig;
     if (i >= R.nr) break;
-    elig = !(R.rlen[i] + relaylen >= 1000) && !has_nul(R.roff[i], R.rlen[i]);
-    R.ok[i] = 0;
-    if (elig && have_relay) R.ok[i] = 1;
-    if (elig && !have_relay && !R.rh_trouble) {
-      R.eligidx[R.nelig] = i;
-      if (rh[R.nelig] == 1) R.ok[i] = 1;
-      if (rh[R.nelig] == -1) R.rh_trouble = 1;       /* the daemon stops here with 111 */
-      ++R.nelig;
-    }
+    R.ok[i] = !(R.rlen[i] + relaylen >= 1000) && !has_nul(R.roff[i], R.rlen[i]) && (have_relay || rh[i] == 1);
     if (R.ok[i]) R.okidx[R.nok++] = i;
   }
 }
@@ -177,7 +172,7 @@ static int n_open, n_close, n_from, n_received, order_bad;
 static int g_flagerr, daemon_fail_calls;
 static unsigned int nwr;
 static unsigned int dpos, dcount; static int msg_bad;      /* reference decoder cursor */
-static int from_bad, to_bad, rh_bad, rh_said_trouble, write_failed; static unsigned int n_to, n_rh;
+static int from_bad, to_bad, rh_bad, rh_said_trouble, write_failed; static unsigned int n_to;
 static char *close_result = "?";
 static int rbad, reply_bad; static unsigned int nrep, nK; static char rclass_seen;
 static unsigned int outcount, flushed;
@@ -265,16 +260,16 @@ static int same_addr(const char *s, unsigned int off, unsigned int len, const ch
 
 int rcpthosts(char *buf, int len)
 {
-  unsigned int k, i;
+  unsigned int i, j = MAXR;
   CHECK(!have_relay, "rcpthosts is not consulted for a relay client");
   if (n_open != 1) return 1;
-  k = n_rh++;
-  if (k < MAXR && rh[k] == -1) rh_said_trouble = 1;
-  if (k >= MAXR) { rh_bad = 1; return 1; }
-  if (R.status != 2 || k >= R.nelig) { rh_bad = 1; return rh[k]; }
-  i = R.eligidx[k];
-  if ((unsigned int) len != R.rlen[i] || !same_addr(buf, R.roff[i], R.rlen[i], "")) rh_bad = 1;
-  return rh[k];
+  /* which recipient?  the one whose last byte was just read (the ideal stream has no read-ahead) */
+  for (i = 0; i < MAXR; ++i) { if (R.status == 2 && i < R.nr && R.roff[i] + R.rlen[i] == inpos) { j = i; break; } }
+  if (j == MAXR) { rh_bad = 1; return 1; }       /* only possible for a package that is not well-formed */
+  if ((unsigned int) len != R.rlen[j]) rh_bad = 1;
+  else if (!has_nul(R.roff[j], R.rlen[j]) && !same_addr(buf, R.roff[j], R.rlen[j], "")) rh_bad = 1;
+  if (rh[j] == -1) rh_said_trouble = 1;
+  return rh[j];
 }
 
 static void wr(void) { if (nwr++ == wfail_at) g_flagerr = write_failed = 1; }
@@ -354,10 +349,10 @@ void received(struct qmail *q, char *protocol, char *local, char *rip, char *rho
 void vf__exit(int status)
 {
   int queued = n_close == 1 && close_result[0] == 0;
-  int res_trouble = R.huge || open_fails || init_fails || R.rh_trouble;
+  int res_trouble = R.huge || open_fails || init_fails || rh_said_trouble;
   int must_fail = R.sender_bad || R.too_big || R.nok == 0;
 
-  CHECK(status == 0 || status == 100 || (status == 111 && (res_trouble || rh_said_trouble)), "C07(2): exit status is 0, 100, or 111 for resource trouble");
+  CHECK(status == 0 || status == 100 || (status == 111 && res_trouble), "C07(2): exit status is 0, 100, or 111 for resource trouble");
   CHECK(nK == 0 || (queued && flushed == outcount), "C07(2): K is sent only after the queue connection was closed successfully");
   CHECK(R.status == 2 || !queued, "C07(2): truncated or malformed package => nothing queued");
   CHECK(R.status != 1 || (nrep == 0 && status != 0), "C07(2): complete malformed netstring => exit 100, no reply");
@@ -365,14 +360,14 @@ void vf__exit(int status)
   if (R.status == 2 && !res_trouble) {
     CHECK((status == 0 || R.end < N) && n_received == 1 && n_from == 1 && n_close == 1 && !order_bad && !rbad && flushed == outcount,
           "C07(2): a well-formed package is handed over in order and answered with well-formed, flushed replies");
-    CHECK(!rh_bad && n_rh == R.nelig, "C07(2): rcpthosts is asked about exactly the eligible recipients");
+    CHECK(!rh_bad, "C07(2): rcpthosts is asked about the recipient as sent");
     CHECK(must_fail ? !queued : daemon_fail_calls == 0,
           "C07(2): bad sender / oversize body / no acceptable recipient => nothing queued; otherwise the daemon does not fail the message");
     CHECK(!reply_bad && nrep == R.nr, "C07(2): one reply per recipient, in order: K iff acceptable and queued, D for policy, else the queue's class");
     CHECK(!queued || (!msg_bad && dpos == R.bend && dcount == R.dlen && !from_bad && !to_bad && n_to == R.nok),
           "C07(2): K => queue got Received + exactly the decoded body, the sender, and the acceptable recipients in order");
   }
-  if (R.status == 2 && res_trouble && !R.huge)
+  if ((R.status == 2 && res_trouble && !R.huge) || rh_said_trouble)
     CHECK(status == 111 && nK == 0 && !queued, "C07(2): resource trouble => exit 111, nothing queued");
 #if defined(WITNESS_INLINE) || defined(WITNESS_TWIN)
   if (R.status == 0 && status == 0 && n_open == 1) WITNESS("disconnect_after_open");
